@@ -1025,4 +1025,230 @@ theorem equalOK {env : Env} (hf : env.flagsOk = true) (he : envOk env = true) (x
   exact ⟨htop, EqualOK.step_field hf he x htop ih, EqualOK.step_fields x ih,
     EqualOK.step_elems x ih, EqualOK.step_entries hf x ih⟩
 
+/-! ## Entry spines as lists -/
+
+/-- a proper map-entry spine: `snil` or `scons (pair _ _) …` all the way down -/
+def Val.isEntrySpine : Val → Bool
+  | .snil => true
+  | .scons (.pair _ _) r => isEntrySpine r
+  | _ => false
+
+theorem entriesHaveType_isEntrySpine {env : Env} {K V : Ty} :
+    ∀ s, entriesHaveType env K V s = true → s.isEntrySpine = true := by
+  intro s
+  induction s using Val.strongInduction with
+  | step s ih =>
+  intro hs
+  rcases entriesHaveType_inv hs with rfl | ⟨k, v, r, rfl, -, -, hr⟩
+  · rfl
+  · simp only [Val.isEntrySpine]; exact ih r (by simp <;> omega) hr
+
+theorem sizeOf_lt_of_mem_toList {e : Val} : ∀ s : Val, e ∈ s.toList → sizeOf e < sizeOf s := by
+  intro s
+  induction s with
+  | scons hd tl _ ih =>
+    intro h
+    simp only [Val.toList, List.mem_cons] at h
+    rcases h with rfl | h
+    · simp <;> omega
+    · have := ih h; simp <;> omega
+  | _ => intro h; simp [Val.toList] at h
+
+theorem isEntrySpine_mem {e : Val} : ∀ s : Val, s.isEntrySpine = true → e ∈ s.toList →
+    ∃ k v, e = .pair k v := by
+  intro s
+  induction s with
+  | scons hd tl _ ih =>
+    intro hs h
+    cases hd with
+    | pair k v =>
+      simp only [Val.toList, List.mem_cons] at h
+      rcases h with rfl | h
+      · exact ⟨k, v, rfl⟩
+      · exact ih (by simpa [Val.isEntrySpine] using hs) h
+    | _ => simp [Val.isEntrySpine] at hs
+  | _ => intro _ h; simp [Val.toList] at h
+
+theorem entriesHaveType_mem {env : Env} {K V : Ty} {k v : Val} :
+    ∀ s, entriesHaveType env K V s = true → .pair k v ∈ s.toList →
+      hasType env K k = true ∧ hasType env V v = true := by
+  intro s
+  induction s using Val.strongInduction with
+  | step s ih =>
+  intro hs h
+  rcases entriesHaveType_inv hs with rfl | ⟨k', v', r, rfl, hk, hv, hr⟩
+  · simp [Val.toList] at h
+  · simp only [Val.toList, List.mem_cons] at h
+    rcases h with h | h
+    · cases h; exact ⟨hk, hv⟩
+    · exact ih r (by simp <;> omega) hr h
+
+theorem nanFree_mem {e : Val} : ∀ s : Val, nanFree s = true → e ∈ s.toList → nanFree e = true := by
+  intro s
+  induction s with
+  | scons hd tl _ ih =>
+    intro hs h
+    simp only [nanFree, Bool.and_eq_true] at hs
+    simp only [Val.toList, List.mem_cons] at h
+    rcases h with rfl | h
+    · exact hs.1
+    · exact ih hs.2 h
+  | _ => intro _ h; simp [Val.toList] at h
+
+theorem entriesIn_iff {env : Env} {K V : Ty} {ys : Val} :
+    ∀ xs : Val, xs.isEntrySpine = true →
+      (Spec.entriesIn env K V xs ys = true ↔
+        ∀ k v, .pair k v ∈ xs.toList → Spec.valueAt env K V k v ys = true) := by
+  intro xs
+  induction xs with
+  | snil => intro _; simp [Spec.entriesIn, Val.toList]
+  | scons hd tl _ ih =>
+    intro hs
+    cases hd with
+    | pair k v =>
+      have hs' : tl.isEntrySpine = true := by simpa [Val.isEntrySpine] using hs
+      rw [Spec.entriesIn, Bool.and_eq_true, ih hs']
+      simp only [Val.toList, List.mem_cons]
+      constructor
+      · rintro ⟨h1, h2⟩ k' v' (h | h)
+        · cases h; exact h1
+        · exact h2 k' v' h
+      · intro h
+        exact ⟨h k v (Or.inl rfl), fun k' v' h' => h k' v' (Or.inr h')⟩
+    | _ => simp [Val.isEntrySpine] at hs
+  | _ => intro hs; simp [Val.isEntrySpine] at hs
+
+theorem valueAt_iff {env : Env} {K V : Ty} {k v : Val} :
+    ∀ ys : Val, ys.isEntrySpine = true →
+      (Spec.valueAt env K V k v ys = true ↔
+        ∃ k' w, .pair k' w ∈ ys.toList ∧ Spec.structEq env K k k' = true ∧
+          Spec.structEq env V v w = true) := by
+  intro ys
+  induction ys with
+  | snil => intro _; rw [Spec.valueAt.eq_def]; simp [Val.toList]
+  | scons hd tl _ ih =>
+    intro hs
+    cases hd with
+    | pair k' w =>
+      have hs' : tl.isEntrySpine = true := by simpa [Val.isEntrySpine] using hs
+      rw [Spec.valueAt.eq_1, Bool.or_eq_true, Bool.and_eq_true, ih hs']
+      simp only [Val.toList, List.mem_cons]
+      constructor
+      · rintro (⟨h1, h2⟩ | ⟨k2, w2, hm, h1, h2⟩)
+        · exact ⟨k', w, Or.inl rfl, h1, h2⟩
+        · exact ⟨k2, w2, Or.inr hm, h1, h2⟩
+      · rintro ⟨k2, w2, hm | hm, h1, h2⟩
+        · cases hm; exact Or.inl ⟨h1, h2⟩
+        · exact Or.inr ⟨k2, w2, hm, h1, h2⟩
+    | _ => simp [Val.isEntrySpine] at hs
+  | _ => intro hs; simp [Val.isEntrySpine] at hs
+
+/-- the keys of a `keysDistinct` spine are pairwise different under `==` (earlier vs later) -/
+theorem keyFresh_mem {k k' w : Val} : ∀ s : Val, keyFresh k s = true → .pair k' w ∈ s.toList →
+    goEq k k' = false := by
+  intro s
+  induction s with
+  | scons hd tl _ ih =>
+    intro hfr h
+    simp only [Val.toList, List.mem_cons] at h
+    rcases h with rfl | h
+    · simp only [keyFresh, Bool.and_eq_true, Bool.not_eq_true'] at hfr; exact hfr.1
+    · cases hd with
+      | pair k2 w2 =>
+        simp only [keyFresh, Bool.and_eq_true] at hfr
+        exact ih hfr.2 h
+      | _ =>
+        -- `keyFresh` stops at a non-pair, but then the spine has no later pairs it cares about
+        simp only [keyFresh] at hfr
+        exact absurd h (by intro; exact nomatch_helper)
+  | _ => intro _ h; simp [Val.toList] at h
+
+/-! ## Evaluation lemmas (for concrete examples: the functions are defined by well-founded
+recursion, so `decide` cannot run them; `simp [hasType_eval…]` can) -/
+
+section Eval
+variable (env : Env)
+
+theorem hasType_eval_named (i : Nat) (v : Val) (h : (env.under (.named i)).isNamed = false) :
+    hasType env (.named i) v = hasType env (env.under (.named i)) v :=
+  hasType_congr (env.under_of_not_named h).symm v
+theorem hasType_eval_basic (b : Basic) (v : Val) : hasType env (.basic b) v = basicHasType b v :=
+  hasType.eq_1 env _ v b rfl
+theorem hasType_eval_ptr_nil (R : Ty) : hasType env (.ptr R) .nilv = true :=
+  hasType.eq_2 env _ R rfl
+theorem hasType_eval_ptr (R : Ty) (a : Nat) (v : Val) :
+    hasType env (.ptr R) (.ptr a v) = hasType env R v := hasType.eq_3 env _ R a v rfl
+theorem hasType_eval_slice_nil (E : Ty) : hasType env (.slice E) .nilv = true :=
+  hasType.eq_4 env _ E rfl
+theorem hasType_eval_slice (E : Ty) (a s : Nat) (xs : Val) :
+    hasType env (.slice E) (.slice a s xs) = allHaveType env E xs := hasType.eq_5 env _ E a s xs rfl
+theorem hasType_eval_array (n : Nat) (E : Ty) (xs : Val) :
+    hasType env (.array n E) (.arr xs) = (xs.slen == n && allHaveType env E xs) :=
+  hasType.eq_6 env _ n E xs rfl
+theorem hasType_eval_struct (fs : Ty) (xs : Val) :
+    hasType env (.struct fs) (.struct xs) = fieldsHaveType env fs xs := hasType.eq_7 env _ fs xs rfl
+theorem hasType_eval_map_nil (K V : Ty) : hasType env (.map K V) .nilv = true :=
+  hasType.eq_8 env _ K V rfl
+theorem hasType_eval_map (K V : Ty) (a : Nat) (es : Val) :
+    hasType env (.map K V) (.map a es) =
+      (canEqual env K && entriesHaveType env K V es && keysDistinct es) :=
+  hasType.eq_9 env _ K V a es rfl
+
+open Spec in
+theorem structEq_eval_named (i : Nat) (x y : Val) (h : (env.under (.named i)).isNamed = false) :
+    structEq env (.named i) x y = structEq env (env.under (.named i)) x y :=
+  structEq_congr (env.under_of_not_named h).symm x y
+open Spec in
+theorem structEq_eval_basic (b : Basic) (x y : Val) : structEq env (.basic b) x y = leafEq x y :=
+  structEq_basic rfl x y
+open Spec in
+theorem structEq_eval_ptr (R : Ty) (x y : Val) :
+    structEq env (.ptr R) x y =
+      match x, y with
+      | .nilv, .nilv => true
+      | .ptr _ a, .ptr _ b => structEq env R a b
+      | _, _ => false := structEq_ptr rfl x y
+open Spec in
+theorem structEq_eval_slice (E : Ty) (x y : Val) :
+    structEq env (.slice E) x y =
+      match x, y with
+      | .nilv, .nilv => true
+      | .slice _ _ xs, .slice _ _ ys => seqEq env E xs ys
+      | _, _ => false := structEq_slice rfl x y
+open Spec in
+theorem structEq_eval_array (n : Nat) (E : Ty) (x y : Val) :
+    structEq env (.array n E) x y =
+      match x, y with
+      | .arr xs, .arr ys => seqEq env E xs ys
+      | _, _ => false := structEq_array rfl x y
+open Spec in
+theorem structEq_eval_struct (fs : Ty) (x y : Val) :
+    structEq env (.struct fs) x y =
+      match x, y with
+      | .struct xs, .struct ys => fieldsEq env fs xs ys
+      | _, _ => false := structEq_struct rfl x y
+open Spec in
+theorem structEq_eval_map (K V : Ty) (x y : Val) :
+    structEq env (.map K V) x y =
+      match x, y with
+      | .nilv, .nilv => true
+      | .map _ xs, .map _ ys => xs.slen == ys.slen && entriesIn env K V xs ys
+      | _, _ => false := structEq_map rfl x y
+
+end Eval
+
+/-- evaluate the well-founded model/spec/typing functions on concrete data -/
+syntax "goderive_eval" (" [" Lean.Parser.Tactic.simpLemma,* "]")? : tactic
+macro_rules
+  | `(tactic| goderive_eval) => `(tactic| goderive_eval [])
+  | `(tactic| goderive_eval [$ls,*]) => `(tactic|
+      simp +decide [hasType_eval_named, hasType_eval_basic, hasType_eval_ptr_nil, hasType_eval_ptr,
+        hasType_eval_slice_nil, hasType_eval_slice, hasType_eval_array, hasType_eval_struct,
+        hasType_eval_map_nil, hasType_eval_map, fieldsHaveType, allHaveType, entriesHaveType,
+        structEq_eval_named, structEq_eval_basic, structEq_eval_ptr, structEq_eval_slice,
+        structEq_eval_array, structEq_eval_struct, structEq_eval_map,
+        Spec.fieldsEq, Spec.seqEq, Spec.entriesIn, Spec.valueAt, leafEq, fltEq,
+        Env.under, Env.decl?, Ty.isNamed, Val.slen, basicHasType, intInRange, keysDistinct,
+        keyFresh, goEq, canEqual, $ls,*])
+
 end Goderive
